@@ -5,6 +5,6 @@ CONSTANTS
   CallPool <- Pool_clone
   MaxCalls = 2
 SPECIFICATION Spec
-INVARIANTS Safe LockDiscipline Progress IndexOK
+INVARIANTS Safe LockDiscipline Progress IndexOK HalfUpdatedOnlyUnderLock
 VIEW View
 CHECK_DEADLOCK FALSE
